@@ -172,6 +172,7 @@ content_case = st.fixed_dictionaries({
     "crpix": st.tuples(st.floats(-50, 350), st.floats(-50, 350)),
     "scale": st.floats(1, 60),
     "seed": st.integers(0, 2 ** 31 - 1),
+    "ext": st.sampled_from([0, 0, 0, 1]),
 })
 
 
@@ -189,15 +190,20 @@ def build_content(c, d):
         arr = cube
     else:
         arr = cube[None]
-    hdu = fits.PrimaryHDU(arr)
+    ext = c.get("ext", 0)
+    hdu = fits.PrimaryHDU(arr) if ext == 0 else fits.ImageHDU(arr)
     for k, v in w.header_cards().items():
         hdu.header[k] = v
     path = os.path.join(d, "img.fits")
-    hdu.writeto(path, overwrite=True)
+    if ext == 0:
+        hdu.writeto(path, overwrite=True)
+    else:
+        # the image lives in extension 1, behind a primary HDU holding unrelated data of another shape
+        fits.HDUList([fits.PrimaryHDU(np.zeros((3, 5), dtype=np.float32)), hdu]).writeto(path, overwrite=True)
     if c["bscale"] is not None:
         # astropy drops BSCALE from float HDUs on write: patch the card into the raw file
         with fits.open(path, mode="update", do_not_scale_image_data=True) as hl:
-            hl[0].header["BSCALE"] = c["bscale"]
+            hl[ext].header["BSCALE"] = c["bscale"]
     full = cube[ci].astype(np.float64) * (c["bscale"] if c["bscale"] is not None else 1.0)
     return path, full.astype(c["dtype"]), w, ci
 
@@ -205,7 +211,7 @@ def build_content(c, d):
 def check_content(c):
     res = Res()
     if c["compress"]:
-        c = dict(c, ndim=2, bscale=None, rows=max(2, c["rows"]), cols=max(2, c["cols"]))
+        c = dict(c, ndim=2, bscale=None, rows=max(2, c["rows"]), cols=max(2, c["cols"]), ext=0)
     d = tempfile.mkdtemp(prefix="c20c_")
     try:
         path, full, w, ci = build_content(c, d)
@@ -223,9 +229,11 @@ def check_content(c):
             res.label("ndim%d" % c["ndim"])
         if c["bscale"] is not None:
             res.label("bscale")
+        if c.get("ext"):
+            res.label("hdu_index-1")
         nxt = 0
         for i in range(n):
-            data, hdr = fits_tools.load_image_band(path, band=(i, n), cube_index=ci)
+            data, hdr = fits_tools.load_image_band(path, band=(i, n), cube_index=ci, hdu_index=c.get("ext", 0))
             data = np.asarray(data)
             k = data.shape[0]
             if data.ndim != 2 or data.shape[1] != cols:
